@@ -97,7 +97,7 @@ def symmetric(ctx, rule="R05.2"):
     ctx.check(sorted(x[2] for x in ext) == ["self.cond_ext_drift", "self.cond_ext_drift.T"], rule, KB + "::Krige._get_krige_mat", "the 2-D external drift block is transposed on exactly one side: %s" % ext, "ext-T")
     # lower right block zeroed last
     last = [st for st in mat.body if isinstance(st, ast.Assign) and ast.unparse(st.targets[0]).startswith("res[")]
-    stores_in_order = [norm_stmt(s) for s in sorted((x for x in ast.walk(mat) if isinstance(x, (ast.Assign, ast.AugAssign))), key=lambda x: x.lineno) if ast.unparse(s.targets[0] if isinstance(s, ast.Assign) else s.target).startswith("res[")]
+    stores_in_order = [norm_stmt(s) for s in sorted((x for x in ast.walk(mat) if isinstance(x, (ast.Assign, ast.AugAssign))), key=lambda x: x._ord) if ast.unparse(s.targets[0] if isinstance(s, ast.Assign) else s.target).startswith("res[")]
     ctx.check(bool(last) and norm_stmt(last[-1]) == "res[self.cond_no:, self.cond_no:] = 0" and stores_in_order[-1] == "res[self.cond_no:, self.cond_no:] = 0", rule, KB + "::Krige._get_krige_mat",
               "the constraint/constraint block is zeroed after all other blocks were written (np.empty start)", "zero-last")
     err = [s for s in ast.walk(mat) if isinstance(s, ast.AugAssign)]
@@ -120,7 +120,7 @@ def covariance_family(ctx, rule="R05.3"):
     ok = len(use) == 1 and isinstance(use[0], ast.Call) and ast.unparse(use[0].func) == "cf" and ast.unparse(use[0].args[0]) == "self._get_dists(self._krige_pos, pos, chunk_slice)"
     ctx.check(ok, rule, KB + "::Krige._get_krige_vecs", "covariances between conditioning positions and the targets of this chunk", "rhs-dists")
     gd = prog.func(KB, "Krige._get_dists")
-    rets = [ast.unparse(s.value) for s in sorted((x for x in ast.walk(gd) if isinstance(x, ast.Return)), key=lambda x: x.lineno)]
+    rets = [ast.unparse(s.value) for s in sorted((x for x in ast.walk(gd) if isinstance(x, ast.Return)), key=lambda x: x._ord)]
     ctx.check(rets == ["cdist(pos1.T, pos1.T)", "cdist(pos1.T, pos2.T[slice(*pos2_slice), ...])"], rule, KB + "::Krige._get_dists", "Euclidean distances between point lists; the slice selects target points", "dists")
     imp = prog.mod(KB).imports.get("cdist")
     ctx.check(imp == "scipy.spatial.distance.cdist", rule, KB, "cdist is scipy.spatial.distance.cdist (Euclidean by default)", "cdist")
